@@ -228,7 +228,8 @@ func poolRound(tw *traceWriter, r *rand.Rand, provider string, g, perG int) {
 // failing: the underlying writer accepts nothing (client gone): the compressor's own Close fails
 func doubleClose(tw *traceWriter, provider, enc string, failing bool) {
 	l := newReqLog()
-	prov := &ledgerProvider{inner: makeProvider(provider), ids: map[interface{}]int{}, trap: false, cur: l}
+	// trap: a released compressor is reset onto a sink that records any later use
+	prov := &ledgerProvider{inner: makeProvider(provider), ids: map[interface{}]int{}, trap: true, cur: l}
 	restful.SetCompressorProvider(prov)
 	defer restful.SetCompressorProvider(restful.NewSyncPoolCompessors())
 	var rec http.ResponseWriter = httptest.NewRecorder()
@@ -243,13 +244,68 @@ func doubleClose(tw *traceWriter, provider, enc string, failing bool) {
 	first := cw.Close()
 	second := cw.Close()
 	_, werr := cw.Write([]byte("late"))
-	rels := 0
+	// a handler that streams calls Flush whenever it likes - also after the writer was closed
+	safely(func() { cw.Flush() })
+	safely(func() { restful.NewResponse(cw).Flush() })
+	rels, lateUse := 0, 0
 	for _, e := range l.evs {
 		if e.K == "rel" {
 			rels++
 		}
+		if e.K == "use" {
+			lateUse++
+		}
 	}
-	tw.emit(map[string]interface{}{"e": "pdbl", "provider": provider, "enc": enc, "failing": failing, "firstErr": first != nil, "secondErr": second != nil && werr != nil, "rels": rels})
+	tw.emit(map[string]interface{}{"e": "pdbl", "provider": provider, "enc": enc, "failing": failing, "firstErr": first != nil, "secondErr": second != nil && werr != nil, "rels": rels, "lateUse": lateUse})
+}
+
+// the provider itself under contention: G goroutines acquire, mark the object as theirs, yield, unmark and release;
+// an object marked twice was handed out while in use.  (Requests rarely meet inside the few instructions of an
+// Acquire; this does nothing else.)
+func providerStress(tw *traceWriter, provider string, g, per int) {
+	prov := makeProvider(provider)
+	var inUse sync.Map
+	var shared, ops int64
+	var wg sync.WaitGroup
+	start := make(chan struct{})
+	for i := 0; i < g; i++ {
+		wg.Add(1)
+		go func(i int) {
+			defer wg.Done()
+			<-start
+			for j := 0; j < per; j++ {
+				var obj interface{}
+				var rel func()
+				switch (i + j) % 3 {
+				case 0:
+					w := prov.AcquireGzipWriter()
+					obj, rel = w, func() { prov.ReleaseGzipWriter(w) }
+				case 1:
+					w := prov.AcquireZlibWriter()
+					obj, rel = w, func() { prov.ReleaseZlibWriter(w) }
+				default:
+					rd := prov.AcquireGzipReader()
+					obj, rel = rd, func() { prov.ReleaseGzipReader(rd) }
+				}
+				if _, loaded := inUse.LoadOrStore(obj, i); loaded {
+					atomic.AddInt64(&shared, 1)
+				}
+				runtime.Gosched()
+				inUse.Delete(obj)
+				rel()
+				atomic.AddInt64(&ops, 1)
+			}
+		}(i)
+	}
+	done := make(chan struct{})
+	go func() { close(start); wg.Wait(); close(done) }()
+	stuck := 0
+	select {
+	case <-done:
+	case <-time.After(20 * time.Second):
+		stuck = 1
+	}
+	tw.emit(map[string]interface{}{"e": "pstress", "provider": provider, "g": g, "ops": atomic.LoadInt64(&ops), "shared": atomic.LoadInt64(&shared), "stuck": stuck})
 }
 
 func runPool(planPath, outPath string, seed int64) {
@@ -274,5 +330,6 @@ func runPool(planPath, outPath string, seed int64) {
 		for i := 0; i < p.Rounds; i++ {
 			poolRound(tw, r, prov, p.G, p.PerG)
 		}
+		providerStress(tw, prov, 32, 40*(1+p.Rounds))
 	}
 }
